@@ -123,6 +123,13 @@ func (g *c28G) value(f *config.Field, label string) any {
 		if f.Type == "percentage" {
 			lo, hi = max(lo, 0), min(hi, 100)
 		}
+		if q == 0 && (strings.Contains(f.Name, "SampleRate") || strings.HasPrefix(f.Name, "Goal")) && rapid.IntRange(0, 4).Draw(g.t, label+"-oddrate") == 4 {
+			// rates of every sampler type (incl. a rule's own SampleRate and downstream
+			// samplers): zero and negative are what operators mistype and what
+			// the validator mostly lets through
+			g.odd++
+			return g.pick(label+"-rate", 0, -1, -100, math.MinInt64)
+		}
 		if q == 0 {
 			return g.pick(label, lo, lo+1, hi, c28AsInt(f.Default, lo+1), lo+2, lo+10, lo+100)
 		}
